@@ -139,15 +139,16 @@ func ProcessEpochRewardsAndPenalties(ctx context.Context, spec *common.Spec, epc
 		return err
 	}
 
-	valCount := uint64(len(attesterData.Flats))
-	sum := common.NewDeltas(valCount)
-	sum.Add(rewAndPenalties.Source)
-	sum.Add(rewAndPenalties.Target)
-	sum.Add(rewAndPenalties.Head)
-	sum.Add(rewAndPenalties.Inactivity)
-	balances, err := common.ApplyDeltas(state, sum)
-	if err != nil {
-		return err
+	// The spec applies the three flag deltas and the inactivity deltas one after the other:
+	// a balance that hits zero on the way stays there for that step only.
+	for _, d := range []*common.Deltas{rewAndPenalties.Source, rewAndPenalties.Target, rewAndPenalties.Head, rewAndPenalties.Inactivity} {
+		balances, err := common.ApplyDeltas(state, d)
+		if err != nil {
+			return err
+		}
+		if err := state.SetBalances(balances); err != nil {
+			return err
+		}
 	}
-	return state.SetBalances(balances)
+	return nil
 }
